@@ -37,6 +37,13 @@ pub enum Damage {
 	/// column, 8-byte index) — a structure-aware mutation that reaches the per-action validation
 	/// (wrong action kind for the column, table of another column, out-of-range index)
 	Forge(u16, u16, u8, u8),
+	/// (file, candidate selector, size): the two-byte size field that follows the head of an
+	/// InsertValue action is replaced (entry sizes at and beyond the largest entry, the
+	/// tombstone / multipart markers, the compressed flag)
+	ForgeSize(u16, u16, u16),
+	/// the record id in the header of the LAST pending log file becomes `id` (0, 1, huge):
+	/// a file that claims to start the sequence over, or lies far ahead
+	SetLastRecordId(u64),
 	/// (file, length, seed)
 	Append(u16, u16, u16),
 	/// cut the LAST k pending files below the header (0..8 bytes)
@@ -73,6 +80,9 @@ fn damage() -> impl Strategy<Value = Damage> {
 		3 => (any::<u16>(), any::<u16>(), 0u8..9).prop_map(|(f, o, v)| Damage::SetByte(f, o, v)),
 		6 => (any::<u16>(), any::<u16>(), prop_oneof![3 => Just(0u8), 2 => 1u8..3, 1 => 3u8..11], prop_oneof![3 => 0u8..9, 1 => any::<u8>()])
 			.prop_map(|(f, o, w, v)| Damage::Forge(f, o, w, v)),
+		3 => (any::<u16>(), any::<u16>(), prop_oneof![3 => 0x7ff0u16..=0x7fff, 1 => 0xfff0u16..=0xffff, 1 => Just(0x8000u16), 1 => Just(0u16), 2 => any::<u16>()])
+			.prop_map(|(f, o, v)| Damage::ForgeSize(f, o, v)),
+		2 => prop_oneof![3 => Just(0u64), 1 => Just(1u64), 1 => Just(u64::MAX), 1 => any::<u64>()].prop_map(Damage::SetLastRecordId),
 		3 => (any::<u16>(), 1u16..3000, any::<u16>()).prop_map(|(f, l, s)| Damage::Append(f, l, s)),
 		1 => (1u8..3, 0u8..9).prop_map(|(k, l)| Damage::CutLastBelowHeader(k, l)),
 		1 => (1u8..3).prop_map(Damage::ZeroLast),
@@ -203,6 +213,35 @@ pub fn apply_damage(dir: &Path, d: &Damage, last_enacted: u64, touched: &mut boo
 			let at = cands[pick(*o, cands.len())] + *w as usize;
 			if data[at] != *v {
 				std::fs::OpenOptions::new().write(true).open(&p)?.write_at(&[*v], at as u64)?;
+				*touched = true;
+			}
+		},
+		Damage::SetLastRecordId(id) => {
+			let p = dir.join(logs.last().unwrap());
+			// With several pending files an id that sorts the last file before another one makes
+			// it the replay anchor: the known finding (replay start not anchored). Only ids that
+			// keep the file last are in scope then.
+			let others_max = pending_logs_after(dir, 0).iter().filter(|n| dir.join(n) != p).filter_map(|n| first_record_id(&dir.join(n))).max();
+			if let Some(m) = others_max {
+				if *id <= m {
+					return Ok(())
+				}
+			}
+			if std::fs::metadata(&p)?.len() >= 9 {
+				std::fs::OpenOptions::new().write(true).open(&p)?.write_at(&id.to_le_bytes(), 1)?;
+				*touched = true;
+			}
+		},
+		Damage::ForgeSize(f, o, v) => {
+			let p = sel(*f);
+			let data = std::fs::read(&p)?;
+			let cands: Vec<usize> = (9..data.len().saturating_sub(13)).filter(|&i| data[i] == 3 && data[i + 2] < 8 && data[i + 8..i + 11] == [0, 0, 0]).collect();
+			if cands.is_empty() {
+				return Ok(())
+			}
+			let at = cands[pick(*o, cands.len())] + 11;
+			if data[at..at + 2] != v.to_le_bytes() {
+				std::fs::OpenOptions::new().write(true).open(&p)?.write_at(&v.to_le_bytes(), at as u64)?;
 				*touched = true;
 			}
 		},
